@@ -727,20 +727,23 @@ pub fn fuzz_campaigns(seed: u64, ev: &mut std::collections::BTreeMap<String, Val
     let note = |ev: &mut std::collections::BTreeMap<String, Value>, s: String| {
         ev.insert("libfuzzer".into(), serde_json::json!({"status": "inconclusive", "why": s}));
     };
-    let b = Command::new("cargo")
-        .args(["+nightly", "fuzz", "build", "--fuzz-dir", "/verif/fuzz", "--target-dir", build_dir])
-        .env("CARGO_NET_OFFLINE", "true")
-        .current_dir("/verif/fuzz")
-        .output();
-    match b {
-        Ok(o) if o.status.success() => {}
-        Ok(o) => {
-            note(ev, format!("cargo +nightly fuzz build failed: {}", String::from_utf8_lossy(&o.stderr).chars().rev().take(400).collect::<String>().chars().rev().collect::<String>()));
-            return Ok(());
-        }
-        Err(e) => {
-            note(ev, format!("cargo +nightly fuzz not runnable: {}", e));
-            return Ok(());
+    // (only this property's byte-level targets: fz_prop belongs to engine E4 and has its own build)
+    for target in ["fz_components", "fz_factors"] {
+        let b = Command::new("cargo")
+            .args(["+nightly", "fuzz", "build", "--fuzz-dir", "/verif/fuzz", "--target-dir", build_dir, target])
+            .env("CARGO_NET_OFFLINE", "true")
+            .current_dir("/verif/fuzz")
+            .output();
+        match b {
+            Ok(o) if o.status.success() => {}
+            Ok(o) => {
+                note(ev, format!("cargo +nightly fuzz build failed: {}", String::from_utf8_lossy(&o.stderr).chars().rev().take(400).collect::<String>().chars().rev().collect::<String>()));
+                return Ok(());
+            }
+            Err(e) => {
+                note(ev, format!("cargo +nightly fuzz not runnable: {}", e));
+                return Ok(());
+            }
         }
     }
     let mut children = vec![];
